@@ -237,6 +237,37 @@ func TestVerifC18(t *testing.T) {
 			res.Class("name/inside")
 		}
 	}
+	// Names that are not made of ordinary components: whatever the backend answers, nothing may be created,
+	// and nothing read, outside the bucket's directory.
+	if p.Mine(1) {
+		for _, n := range []string{"../x", "a/../../x", "..", "../bucket2/x", "a/../b", "../../x.json", "./../x"} {
+			dir, _ := os.MkdirTemp(base, "h")
+			bh, _ := NewFSBucket(context.Background(), dir, "bucket")
+			os.WriteFile(filepath.Join(dir, "x"), []byte("OUTSIDE"), 0o666)
+			os.WriteFile(filepath.Join(filepath.Dir(dir), "x.json"), []byte("OUTSIDE"), 0o666)
+			before := ref.Snapshot(dir)
+			if w, err := bh.Object(n).NewWriter(context.Background()); err == nil {
+				w.Write([]byte("data"))
+				w.Close()
+			}
+			res.Evaluations++
+			for _, d := range before.Diff(ref.Snapshot(dir)) {
+				if !strings.Contains(d, " bucket/") {
+					res.Violate("name-escapes-bucket", fmt.Sprintf("writing object %q: %s (outside the bucket directory)", n, d), nil)
+				}
+			}
+			if r, err := bh.Object(n).NewReader(context.Background()); err == nil {
+				got, _ := io.ReadAll(r)
+				r.Close()
+				if bytes.Contains(got, []byte("OUTSIDE")) {
+					res.Violate("name-escapes-bucket", fmt.Sprintf("reading object %q returns the content of a file outside the bucket directory", n), nil)
+				}
+			}
+			os.Remove(filepath.Join(filepath.Dir(dir), "x.json"))
+			os.RemoveAll(dir)
+			res.Class("name/hostile")
+		}
+	}
 	res.Validated = res.Evaluations
 	res.Write()
 }
